@@ -28,6 +28,8 @@ type output struct {
 	SolverDecided  int64                         `json:"solver_decided_sides"`
 	UnsatPruned    int64                         `json:"unsat_pruned_sides"`
 	UnknownKept    int64                         `json:"unknown_kept_sides"`
+	FreshRetries   int64                         `json:"fresh_solver_retries"`
+	FreshDecided   int64                         `json:"fresh_solver_decided"`
 	AssertsChecked int64                         `json:"asserts_symbolic"`
 	AssertsConc    int64                         `json:"asserts_concrete"`
 	Queries        int64                         `json:"queries"`
@@ -60,9 +62,10 @@ func main() {
 	maxSamples := flag.Int("max-samples", 40, "")
 	stepBudget := flag.Int64("step-budget", 5_000_000, "SSA instructions per path")
 	pathBudget := flag.Int64("path-budget", 5_000_000, "paths per exploration")
-	qtimeout := flag.Int("query-timeout-ms", 20000, "")
+	qtimeout := flag.Int("query-timeout-ms", 5000, "")
 	deadline := flag.Int("deadline-s", 0, "wall clock limit for the exploration (0 = none)")
 	maxViol := flag.Int("max-violations", 3, "stored per assertion id")
+	dumpDir := flag.String("dump-unknown", "", "directory for transcripts of queries answered unknown")
 	paramStr := flag.String("params", "", "comma-separated NAME=int harness parameters (ndParam)")
 	flag.Parse()
 	params := map[string]int64{}
@@ -130,7 +133,7 @@ func main() {
 	cfg := interp.Config{
 		Prog: ld.Prog, Entry: fn, Workers: *workers, Solver: spec, QueryTimeoutMs: *qtimeout,
 		StepBudget: *stepBudget, PathBudget: *pathBudget, MaxViolations: *maxViol,
-		SampleEvery: *sampleEvery, MaxSamples: *maxSamples, Stubs: stubs, InitPkgs: inits, Params: params,
+		SampleEvery: *sampleEvery, MaxSamples: *maxSamples, Stubs: stubs, InitPkgs: inits, Params: params, DumpDir: *dumpDir,
 	}
 	if *deadline > 0 {
 		cfg.Deadline = time.Now().Add(time.Duration(*deadline) * time.Second)
@@ -139,7 +142,7 @@ func main() {
 	o := output{
 		Entry: pkgPath + "." + *entry, Solver: spec.Name, Workers: *workers, LoadS: loadS, WallS: res.Wall.Seconds(),
 		Completed: res.Completed, Pruned: res.Pruned, Forks: res.Forks, SolverDecided: res.SolverDecided,
-		UnsatPruned: res.UnsatPruned, UnknownKept: res.UnknownKept, AssertsChecked: res.AssertsChecked,
+		UnsatPruned: res.UnsatPruned, UnknownKept: res.UnknownKept, FreshRetries: res.FreshRetries, FreshDecided: res.FreshDecided, AssertsChecked: res.AssertsChecked,
 		AssertsConc: res.AssertsConc, Queries: res.Queries, SolverS: float64(res.SolverNanos) / 1e9,
 		Steps: res.Steps, MapRangesFixed: res.MapRangesFixed, MapRangesPerm: res.MapRangesPerm,
 		Violations: res.Violations, ViolationCount: res.ViolationCount, Inconclusive: res.Inconclusive,
